@@ -12,7 +12,7 @@ INT_CODES = [0, 1, 2, 3, 4, 5, 6, 7]
 T_RAW = 0xFFFFFFFF
 
 
-def draw(rnd, byte_digital_only=False, max_segs=3, allow_props=True, disjoint=False, switch_off=True):
+def draw(rnd, byte_digital_only=False, max_segs=3, allow_props=True, disjoint=False, switch_off=True, reenable=False):
     nbuf = rnd.randint(1, 3)
     lens = [rnd.randint(0, 4) for _ in range(nbuf)]
     if all(l == 0 for l in lens):
@@ -72,6 +72,8 @@ def draw(rnd, byte_digital_only=False, max_segs=3, allow_props=True, disjoint=Fa
     nseg = rnd.randint(1, max_segs)
     live = set(range(len(chans)))        # channels that currently have data
     listed = set()                       # channels in the current object list
+    defined = set()                      # channels whose DAQmx index was stated in full at least once
+    off_now = set()                      # channels last declared "no data"
     for si in range(nseg):
         big = rnd.random() < 0.5
         objs = []
@@ -92,10 +94,16 @@ def draw(rnd, byte_digital_only=False, max_segs=3, allow_props=True, disjoint=Fa
                     live.discard(ci)
                 elif si > 0 and was_live and ci in listed and r < 0.6:
                     idx = ("M",)
+                elif reenable and ci in off_now and ci in defined and r < 0.8:
+                    idx = ("M",)         # switched off earlier, re-enabled by "same as before": the index stated before the switch-off applies again
+                    live.add(ci)
                 else:
                     idx = ("D", digital, c["ty"], c["n"], c["scalers"], widths)
                     live.add(ci)
                 listed.add(ci)
+                if idx[0] == "D":
+                    defined.add(ci)
+                (off_now.add if idx[0] == "N" else off_now.discard)(ci)
                 props = [rand_prop(rnd) for _ in range(rnd.choice([0, 0, 1]))] if allow_props else []
                 objs.append(dict(path=c["path"], idx=idx, props=props))
             if si == 0 and rnd.random() < 0.5:
